@@ -16,6 +16,7 @@ func memberMenu() []Mem {
 		{Kind: "fresh", V: 3, K: 2},
 		{Kind: "slot", Slot: 0, V: 3, K: 0},
 		{Kind: "slot", Slot: 0, V: 1, K: 2}, // update onto another object's key when k2 is stored
+		{Kind: "slot", Slot: 0, V: 1, K: 3}, // update onto the key of a fresh member of the same batch
 		{Kind: "slot", Slot: 1, V: 2, K: 4},
 		{Kind: "invalid", V: 0, K: 4},
 		{Kind: "other", V: 1},
@@ -66,6 +67,24 @@ func runC07(c *Ctx) {
 		{Op: "reopen"},
 	}
 	bs := batches(maxBatch)
+	if maxBatch < 3 {
+		// quick: additionally every triple in which two members are distinct objects sharing the
+		// uuid of a stored object (the second version must be checked against the batch as well)
+		menu := memberMenu()
+		var same []Mem
+		for _, m := range menu {
+			if m.Kind == "slot" && m.Slot == 0 {
+				same = append(same, m)
+			}
+		}
+		for _, a := range same {
+			for _, b := range same {
+				for _, o := range menu {
+					bs = append(bs, []Mem{o, a, b}, []Mem{a, o, b}, []Mem{a, b, o})
+				}
+			}
+		}
+	}
 	opt := ObsOpt{Ordered: true}
 	for _, cfg := range cfgs {
 		cfg := cfg
